@@ -108,6 +108,7 @@ SPEC = {
         # the filtered waveform times the polarity
         dict(file=STIM, qual='BandlimitedNoiseFactory.next', coq='bl_sample', mode='slice', params=['polarity', 'w'],
              subst={'self.polarity': 'polarity', 'waveform': 'w'}, ignore_params=['self', 'samples'],
+             assume={'samples == 0': False},      # a zero-sample request returns an empty array before the filter
              return_text='waveform * self.polarity'),
         # ---- shaped (FIR) noise: half-width of the uniform generator, and the polarity factor
         dict(file=STIM, qual='ShapedNoiseFactory.__init__', coq='shaped_scale', mode='slice', target='self.scale',
@@ -118,9 +119,11 @@ SPEC = {
              ignore_stmts=['vars(self).update(locals())', 'self.reset()']),
         dict(file=STIM, qual='ShapedNoiseFactory.next', coq='shaped_sample', mode='slice', params=['polarity', 'w'],
              subst={'self.polarity': 'polarity', 'waveform': 'w'}, ignore_params=['self', 'samples'],
+             assume={'samples == 0': False},      # a zero-sample request returns an empty array before the filter
              return_text='waveform * self.polarity'),
         dict(file=STIM, qual='BandlimitedFIRNoiseFactory.next', coq='fir_sample', mode='slice', params=['polarity', 'w'],
              subst={'self.polarity': 'polarity', 'waveform': 'w'}, ignore_params=['self', 'samples'],
+             assume={'samples == 0': False},      # a zero-sample request returns an empty array before the filter
              return_text='waveform * self.polarity'),
     ],
 }
